@@ -119,7 +119,7 @@ class OverloadMethodGenerator:
             type_service = UnifiedTypeService(self.schemas)
 
             for param in op.parameters:
-                if param.param_in in ("path", "query", "header"):
+                if param.param_in in ("path", "query", "header", "cookie"):
                     param_type = type_service.resolve_schema_type(param.schema, context, required=param.required)
                     sanitized_name = NameSanitizer.sanitize_method_name(param.name)
                     param_parts.append(f"{sanitized_name}: {param_type}")
@@ -212,7 +212,7 @@ class OverloadMethodGenerator:
             type_service = UnifiedTypeService(self.schemas)
 
             for param in op.parameters:
-                if param.param_in in ("path", "query", "header"):
+                if param.param_in in ("path", "query", "header", "cookie"):
                     param_type = type_service.resolve_schema_type(param.schema, context, required=param.required)
                     sanitized_name = NameSanitizer.sanitize_method_name(param.name)
                     param_parts.append(f"{sanitized_name}: {param_type}")
